@@ -75,7 +75,7 @@ theorem namesUnique_of_wfA (c : SdlPrintTA.OptsA) (s : SchemaD) (apps : Apps) (h
 
 /-! ### erasure -/
 
-private theorem isSpec_depr (r : Option String) :
+theorem isSpec_depr (r : Option String) :
     (deprDirs r).filter SdlPrintTA.isSpecified = deprDirs r := by
   cases r with
   | none => rfl
